@@ -144,7 +144,8 @@ class C05(Property):
                     k = world.model["last_dims_kind"]
             world.model["last_dims"] = dims
             world.model["last_dims_kind"] = k
-            st = {"op": op, "sess": sess, "h": h, "dims": dims, "as": k, "dimfile": rng.pick(DIMFILES), "reuse": rng.chance(0.7)}
+            st = {"op": op, "sess": sess, "h": h, "dims": dims, "as": k, "dimfile": rng.pick(DIMFILES), "reuse": rng.chance(0.7),
+                  "table_order": rng.perm(len(dims)) if rng.chance(0.6) else None}
             if k.startswith("file"):
                 st["io"] = True
                 st["hint"] = {"read": 2, "stat": 1, "any": 4}
@@ -352,6 +353,10 @@ class C05(Property):
             raise Skip()
         kind = step["as"]
         ids = sorted(int(k) for k in dims)
+        if step.get("table_order") and len(step["table_order"]) == len(ids):
+            ids = [ids[i] for i in step["table_order"]]   # the rows of a per-tomogram table come in any order
+            if ids != sorted(ids):
+                world.probes["unsorted_dimension_table"] += 1
         single = dims[str(ids[0])]
         if kind in ("list", "array3", "file3", "df3") and len({tuple(dims[str(t)]) for t in tomos}) > 1:
             kind = "table"
@@ -420,7 +425,7 @@ class C05(Property):
         notebook that keeps `dims = pd.DataFrame(...)` around would do"""
         import json
         pool = world.session(step["sess"]).setdefault("_dims", {"obj": None, "model": None, "pool": {}})["pool"]
-        key = kind + json.dumps(content, sort_keys=True)
+        key = kind + json.dumps(content, sort_keys=True) + json.dumps(step.get("table_order"))
         if step.get("reuse") and key in pool:
             world.probes["dimension_object_reused"] += 1
             return pool[key]
@@ -502,6 +507,8 @@ class C05(Property):
         if step["op"] == "shift" and step["shift"] != [1.0, 0.0, 0.0]:
             yield dict(step, shift=[1.0, 0.0, 0.0])
         if step["op"] == "flip":
+            if step.get("table_order"):
+                yield dict(step, table_order=None)
             if step["as"] not in ("list",):
                 yield dict(step, **{"as": "list"})
                 yield dict(step, **{"as": "table"})
